@@ -126,7 +126,7 @@ func verifHeapRemove(i int) *tssItem { return heap.Remove(&tssQ, i).(*tssItem) }
 //@   ensures mono: rxt0.Before(lastnow()) && -1099511627776 <= rxt.Unix() && rxt.Unix() <= 1099511627776 ==> rxt.Before(*txt)
 // The pair recorded for this exchange is what a later interleaved reply serves until updateTXTimestamp runs: the
 // property demands that transmit time to be later than the receive timestamp, whatever the clock reading was.
-//@   ensures recordedlater: -1099511627776 <= rxt.Unix() && rxt.Unix() <= 1099511627776 ==> rxt.Before(*txt)
+//@   ensures recordedlater#C06: -1099511627776 <= rxt.Unix() && rxt.Unix() <= 1099511627776 ==> rxt.Before(*txt)
 //@   ensures basic: !interleaved(clientID, req) ==> resp.OriginTime == req.TransmitTime && resp.TransmitTime == ntp.Time64FromTime(*txt)
 //@   ensures inter: interleaved(clientID, req) ==> resp.OriginTime == req.ReceiveTime && forall(j, 0, old(tss[clientID].len), old(tss[clientID].buf[j].rxt) == req.OriginTime ==> resp.TransmitTime == old(tss[clientID].buf[j].txt))
 //@   ensures evict: evicts(clientID, rxt0) ==> !inmap(tss, old(tssQ[0].key))
